@@ -22,12 +22,15 @@ C04 filt 0|1 Dre Dim xre xim -> ok re=[…] im=[…]: the `FourierFilter._operat
                       rationals, forward (0) or backward (1), for the filter set up (internal sizes must be in {1,2,4});
                       D centred, row-major My·Mx; x row-major ny·nx
 C04 filtp 0|1 Dre Dim xre xim -> ok out=c:t,c:t;…: the same pipeline on formal phase sums (`filtOpP`), any internal size with
-                      My·Mx ≤ 64: per output pixel (row-major, `;`-separated) the terms `c·exp(2πi t)` as `c:t`
+                      My·Mx ≤ 256: per output pixel (row-major, `;`-separated) the terms `c·exp(2πi t)` as `c:t`
 C04 filtmp n 0|1 Dre Dim xre xim -> ok out=…: the pipeline with an n×n matrix transfer function on a vector field (`filtMOpP`:
                       `filterMP` / `filterMPBackward`) on formal phase sums; D index (i·n+j)·My·Mx + pixel, x index t·ny·nx + pixel;
                       n²·My·Mx ≤ 256; output as `filtp`, index t·ny·nx + pixel
-C04 prop 0|1 xre xim -> ok out=…: the Fresnel propagator set up (transfer-function branch, My·Mx ≤ 64) applied to x, exactly, on
-                      formal phase sums (`propOpP`: `filterP` with the transfer function `fresnelTFP` = mean of the `fresnelSubTurns` phases)
+C04 prop 0|1 xre xim -> ok out=…: the Fresnel propagator set up (either branch of the regime switch, My·Mx ≤ 256) applied to x,
+                      exactly, on formal phase sums (`propOpP`: `fresnelPropagatorForward/Backward psumScalar` = `fourierFilter` with
+                      `fresnelTF` (mean of the `fresnelSubTurns` phases) or, on the impulse-response branch, `fresnelIrTF`)
+C04 tfx qx qy     -> ok out=c:t,…: the transfer function of the Fresnel propagator set up at FFT bin (qy,qx), exactly, whichever
+                      branch `make_instance` takes (`tfOpP` = `fresnelTFSwitched psumScalar`)
 C04 dtypes [d…] [s…] -> ok t a d e s;…: dtype / tensor-shape bookkeeping of one `FourierFilter` object over a sequence of calls
                       (`traceCalls`): call i has dtype d_i (0 = complex64, 1 = complex128) and tensor shape code s_i (0 = scalar,
                       2 = (2,), 3 = (3,), 22 = (2,2), …); per call: transfer function recomputed (t), scratch array reallocated (a),
@@ -166,7 +169,7 @@ def step (st : St) : List String → St × String
   | ["filtp", back, dre, dim, xre, xim] =>
     match st.p, parseNat? back, parseRatList? dre, parseRatList? dim, parseRatList? xre, parseRatList? xim with
     | some p, some back, some dre, some dim, some xre, some xim =>
-      if back > 1 || my p * mx p > 64 || !(padOK p) || dre.length ≠ my p * mx p || dim.length ≠ my p * mx p
+      if back > 1 || my p * mx p > 256 || !(padOK p) || dre.length ≠ my p * mx p || dim.length ≠ my p * mx p
           || xre.length ≠ p.ny * p.nx || xim.length ≠ p.ny * p.nx then (st, "err value") else
       let D := (dre.zip dim).map fun (a, b) => (⟨a, b⟩ : GRat)
       let x := (xre.zip xim).map fun (a, b) => (⟨a, b⟩ : GRat)
@@ -190,7 +193,7 @@ def step (st : St) : List String → St × String
   | ["prop", back, xre, xim] =>
     match st.p, parseNat? back, parseRatList? xre, parseRatList? xim with
     | some p, some back, some xre, some xim =>
-      if back > 1 || my p * mx p > 64 || !(padOK p) || p.kind != .fresnel || impulseBranch p
+      if back > 1 || my p * mx p > 256 || !(padOK p) || p.kind != .fresnel || (impulseBranch p && p.z == 0)
           || xre.length ≠ p.ny * p.nx || xim.length ≠ p.ny * p.nx then (st, "err value") else
       let x := (xre.zip xim).map fun (a, b) => (⟨a, b⟩ : GRat)
       let r := propOpP p (back == 1) x
@@ -198,6 +201,14 @@ def step (st : St) : List String → St × String
       (st, "ok out=" ++ ";".intercalate (r.map fun s => ",".intercalate (s.terms.map showT)))
     | none, some _, some _, some _ => (st, "err value")
     | _, _, _, _ => (st, "bad-op")
+  | ["tfx", qx, qy] =>
+    match st.p, parseNat? qx, parseNat? qy with
+    | some p, some qx, some qy =>
+      if qx ≥ mx p || qy ≥ my p || !(padOK p) || p.kind != .fresnel || (impulseBranch p && p.z == 0) then (st, "err value") else
+      let showT := fun (t : Fft.Term) => if t.r == 0 then s!"{showRat t.c}:{showRat t.t}" else "?"
+      (st, "ok out=" ++ ",".intercalate ((tfOpP p qy qx).terms.map showT))
+    | none, some _, some _ => (st, "err value")
+    | _, _, _ => (st, "bad-op")
   | ["ir", jy] =>
     match st.p, parseNat? jy with
     | some p, some jy =>
